@@ -11,6 +11,7 @@ import (
 	"bufio"
 	"encoding/hex"
 	"fmt"
+	"math"
 	"math/rand"
 	"os"
 	"regexp"
@@ -193,6 +194,9 @@ func answerOracle(in, out string) {
 			continue
 		}
 		switch f[1] {
+		case "PF": // C18: value component of strconv.ParseFloat(s, 64) as IEEE-754 bits
+			v, _ := strconv.ParseFloat(unhx(f[2]), 64)
+			res = append(res, fmt.Sprintf("E PF %s %d", f[2], math.Float64bits(v)))
 		case "C":
 			re := compile(f[2])
 			if re == nil {
